@@ -809,7 +809,7 @@ func init() {
 		Rule: "one evaluation = one history H1, a rollback (discard of uncommitted changes, LoadVersionForOverwriting(v), or DeleteVersionsFrom(v+1)+reopen+LoadVersion(v)) for any retained v incl. latest/first/after pruning/repeated, and an arbitrary continuation H2; from the first rollback on, after every step: every read of every retained version and of the working state, every hash, all version APIs, the raw-disk reachability audit and the raw fast index are compared with R1/R2, which by construction are the history that simply ended at v; a share of runs uses real MemDB/GoLevelDB and trees with >64 stored nodes in the deleted range; non-trivial = >=2 post-rollback audits incl. a rollback to an older version",
 		Gen: func(seed uint64, run int, tier string) *drv.Plan {
 			return genPlan("C09", seed, run, c09Bias(tier, sim.Sub(seed, "C09-shape", run)))
-		}, Exec: execC09, RunTimeout: 40 * 1e9})
+		}, Exec: execC09, RunTimeout: 120 * 1e9})
 	Register(&Check{ID: "C15", Level: "exploration", Engine: "drv", QuickRuns: 3000, ThoroughS: 480, Components: stdComponents,
 		Assumptions: append([]string{"no fault or schedule dimension: a pure function of the committed history; the simulator contributes histories x pruning x restarts x configurations", "the end bound of TraverseStateChanges is accepted both as inclusive and exclusive (documentation and implementation disagree)"}, assume...),
 		Rule:        "one evaluation = one history with repeated writes/removals of a key inside a version, set-then-remove, remove-then-set, identical rewrites, no-op and empty versions, pruning; after every structural step TraverseStateChanges is called for boundary and seeded ranges and every reported version whose predecessor is retained is compared with R1's normal-form change set; SaveChangeSet commits versions (incl. rejected removals of missing keys); at the end all change sets are replayed into an empty tree and every version's contents (and, for runs generated in normal form, root hash) must be reproduced; non-trivial = >=2 non-empty change sets compared",
